@@ -23,7 +23,9 @@
 (* Clauses (names of the relations that fail on a line):                   *)
 (*   PrintRaises PrintDenotes | ParseRaises UnknownNamed ParserAgrees      *)
 (*   PadWitness RoundTrip | RingAgrees | BalanceExact BalanceRaises |      *)
-(*   FormulaWitness FormulaDirect FormulaReader FormulaRaises |            *)
+(*   FormulaWitness FormulaDirect FormulaReader FormulaRaises              *)
+(*   ParseRepeatable ResultsIndependent (fhist / fbalance: repeated use of *)
+(*   parse_formula results, one of them edited in place) |                 *)
 (*   Unsupported UnknownEvent                                              *)
 (* Verdicts are total: failing clause names are accumulated in TLC         *)
 (* register 1 and printed by the postcondition.  Register 2 counts, per    *)
@@ -153,6 +155,31 @@ FormulaClauses(e) ==
    ELSE (IF (\A i \in 1..Len(items) : ItemOK(items[i])) /\ Render(items) = e.text THEN {} ELSE {"FormulaWitness"})
         \cup (IF AsSet(res) = AsSet(Direct(items)) /\ Cardinality(AsSet(res)) = Len(res) THEN {} ELSE {"FormulaDirect"})
         \cup (IF AsSet(res) = AsSet(ReadFormula(e.text)) THEN {} ELSE {"FormulaReader"})
+        \cup (IF "rep" \in DOMAIN e /\ e.rep > 1 /\ AsSet(res) # AsSet(ReadFormula(e.text))
+              THEN {"ParseRepeatable"} ELSE {})
+
+\* ---- second-use histories of parse_formula (C14-12): the same formula parsed repeatedly, one
+\* returned dict edited in place.  fhist: `before`/`after` = another result of the same formula as
+\* seen before and after the edit, `distinct` = the results are different objects.
+FHistClauses(e) ==
+   IF ~CountsSupported(e.text) THEN {"Unsupported"}
+   ELSE IF e.distinct /\ e.before = e.after
+           /\ AsSet(FItemsOf(e.after)) = AsSet(ReadFormula(e.text)) THEN {} ELSE {"ResultsIndependent"}
+\* fbalance: species <<coefficient <<p, q>>, formula text, edit>>: built from parse_formula(text),
+\* then (edit = <<symbol, count>>) that one species' dict edited in place; the composition the
+\* property speaks of is the spec's own reading of the text with the edit applied
+FEdit(acc, ed) == IF ed = <<>> THEN acc ELSE
+                  LET j == FIndex(acc, ed[1]) IN
+                  IF j = 0 THEN Append(acc, [sym |-> ed[1], n |-> ed[2]])
+                  ELSE [acc EXCEPT ![j] = [sym |-> ed[1], n |-> ed[2]]]
+FComp(sp) == LET a == FEdit(ReadFormula(sp[2]), sp[3]) IN [m \in 1..Len(a) |-> <<a[m].sym, a[m].n>>]
+FBalSide(side, L) == [i \in 1..Len(side) |-> [co |-> CoefUnitsR(side[i][1], L), comp |-> FComp(side[i])]]
+FBalRxn(e) == LET L == DenLcm(e.re \o e.pr) IN
+              [re |-> FBalSide(e.re, L), pr |-> FBalSide(e.pr, L), ts |-> <<>>, hasTS |-> FALSE]
+FBalanceClauses(e) ==
+   IF \E i \in 1..Len(e.re \o e.pr) : ~CountsSupported((e.re \o e.pr)[i][2]) \/ (e.re \o e.pr)[i][1][2] \notin 1..12
+   THEN {"Unsupported"}
+   ELSE IF e.accepted = Balanced(FBalRxn(e)) THEN {} ELSE {"BalanceExact"}
 
 Clauses(e) ==
    CASE e.ev = "print" -> PrintClauses(e)
@@ -160,6 +187,8 @@ Clauses(e) ==
      [] e.ev = "ring" -> RingClauses(e)
      [] e.ev = "balance" -> BalanceClauses(e)
      [] e.ev = "formula" -> FormulaClauses(e)
+     [] e.ev = "fhist" -> FHistClauses(e)
+     [] e.ev = "fbalance" -> FBalanceClauses(e)
      [] OTHER -> {"UnknownEvent"}
 
 \* ---- vacuity accounting: which situations the recorded lines actually exercised (register 2)
@@ -180,7 +209,7 @@ Situations == {"print_ts", "print_nots", "print_nearint", "print_decimal", "prin
                "balance_rational", "balance_float_count", "balance_nocomp", "balance_ts_multi",
                "balance_ts_coef_differs", "balance_cls_chemkin", "balance_cls_surface",
                "formula_repeat", "formula_nocount", "formula_twoletter", "formula_bigcount", "formula_count1",
-               "formula_999"}
+               "formula_999", "formula_reparsed", "fhist_edited", "fbalance_balanced", "fbalance_unbalanced"}
               \cup FmtSituations \cup DelimSituations
 AllItems(p) == p.re \o p.pr \o p.ts
 Flag(c, nm) == IF c THEN {nm} ELSE {}
@@ -283,6 +312,9 @@ Seen(e) ==
           \cup Flag(\E i \in 1..Len(items) : items[i].n = 999, "formula_999")
           \cup Flag(\E i \in 1..Len(items) : Len(items[i].sym) = 2, "formula_twoletter")
           \cup Flag(\E i \in 1..Len(items) : items[i].n >= 100, "formula_bigcount")
+          \cup Flag("rep" \in DOMAIN e /\ e.rep > 1, "formula_reparsed")
+     [] e.ev = "fhist" -> Flag(e.edited, "fhist_edited")
+     [] e.ev = "fbalance" -> IF Balanced(FBalRxn(e)) THEN {"fbalance_balanced"} ELSE {"fbalance_unbalanced"}
      [] OTHER -> {}
 Bump(f, S) == [k \in Situations |-> f[k] + (IF k \in S THEN 1 ELSE 0)]
 \* accounting costs a second reading of every text: only done when VACUITY=1 (a sample run)
